@@ -102,7 +102,7 @@ def run(ctx):
     # make sure the label-free classes (the only ones that accept unlabelled units) are always in the pool
     dspecs += [{"kind": "positional", "delta": 1.0}, {"kind": "absolute", "delta": 0.5},
                {"kind": "combined", "alpha": 1.0, "beta": 1.0, "delta": 1.0, "pos": None, "cat": None}]
-    n_cases = ctx.scale(400, 2500)
+    n_cases = ctx.scale(400, 10000)
     for _ in range(n_cases):
         if ctx.out_of_time():
             break
